@@ -33,6 +33,8 @@ binding list), `inheritFree` (no `inherit` clause mentions a name involved — t
 depth, shadowing or chain length.
 -/
 namespace Nima.C11
+-- name tokens are compared by spelling in this file (see `NameCmp` in Model/Edit.lean)
+attribute [local instance] NameCmp.spelled
 
 open Node
 
